@@ -480,3 +480,212 @@ Proof. lia. Qed.
 Lemma scaled_minmax_Z r init (v : sview positive Z Z) : wf positive Z Z v ->
   view_reduce positive Z Z ap_Z Z.leb r init v = np_reduce Z Z.leb r init (materialise positive Z Z ap_Z v).
 Proof. apply scaled_minmax; [exact ap_Z_mono|exact leb_antisym]. Qed.
+
+(* ---------------------------------------------------------------------------------------------- *)
+(* keywords of a call                                                                              *)
+(* ---------------------------------------------------------------------------------------------- *)
+Lemma keywords_spec (V A X K R : Type) (mat : V -> A) (f : list (arg V A X) -> K -> R) args kw :
+  array_ufunc_kw V A X K R mat f args kw = Some (f (map (materialised_expr V A X mat) args) kw)
+  /\ array_function_kw V A X K R mat f args kw = Some (f (map (materialised_expr V A X mat) args) kw).
+Proof.
+  unfold array_ufunc_kw, array_function_kw.
+  cbn [av_function_converts_then_applies av_ufunc_converts_then_applies av_convert_recurses_lists_tuples
+       av_ufunc_passes_keywords av_function_passes_keywords andb].
+  assert (map (conv V A X mat) args = map (materialised_expr V A X mat) args) as E
+    by (apply map_ext; intros a; apply conv_materialised).
+  rewrite E. split; reflexivity.
+Qed.
+
+Lemma where_out_length {F} (res : list F) : forall mask out,
+  length res = length out -> length mask = length out -> length (np_where_out res mask out) = length out.
+Proof.
+  induction res as [|r res IH]; intros [|m mask] [|o out] Hr Hm; cbn [np_where_out length] in *; try discriminate; try reflexivity.
+  f_equal. apply IH; lia.
+Qed.
+
+Lemma where_out_nth {F} (res : list F) : forall mask out i,
+  length res = length out -> length mask = length out ->
+  nth_error (np_where_out res mask out) i =
+  match nth_error mask i with Some true => nth_error res i | Some false => nth_error out i | None => None end.
+Proof.
+  induction res as [|r res IH]; intros [|m mask] [|o out] i Hr Hm; cbn [np_where_out length] in *; try discriminate.
+  - destruct i; reflexivity.
+  - destruct i as [|i]; cbn [nth_error].
+    + destruct m; reflexivity.
+    + apply IH; lia.
+Qed.
+
+Lemma sfv_ufunc_where_eq {F} (g : Z -> F) m bs mask out :
+  sfv_ufunc_where g m bs mask out = Some (np_where_out (map g (sf_materialise m bs)) mask out).
+Proof. reflexivity. Qed.
+
+(* np.<ufunc>(view, out=buffer, where=mask): what numpy computes on np.array(view) where the mask is True, the buffer's
+   own contents where it is False *)
+Lemma sfv_ufunc_where_spec {F} (g : Z -> F) m bs mask out :
+  length mask = length bs -> length out = length bs ->
+  exists r, sfv_ufunc_where g m bs mask out = Some r /\ length r = length bs
+    /\ forall i, nth_error r i = match nth_error mask i with
+                                 | Some true => option_map g (nth_error (sf_materialise m bs) i)
+                                 | Some false => nth_error out i
+                                 | None => None
+                                 end.
+Proof.
+  intros Hm Ho. exists (np_where_out (map g (sf_materialise m bs)) mask out).
+  assert (length (map g (sf_materialise m bs)) = length out) as Hl
+    by (unfold sf_materialise; rewrite !map_length; lia).
+  split; [apply sfv_ufunc_where_eq|]. split.
+  - rewrite where_out_length; lia.
+  - intros i. rewrite where_out_nth by lia. rewrite nth_error_map'. reflexivity.
+Qed.
+
+(* ---------------------------------------------------------------------------------------------- *)
+(* several views in one call                                                                       *)
+(* ---------------------------------------------------------------------------------------------- *)
+Section MargInd.
+  Variables V A X : Type.
+  Variable P : marg V A X -> Prop.
+  Hypothesis HV : forall v, P (MView v).
+  Hypothesis HA : forall a, P (MArr a).
+  Hypothesis HO : forall x, P (MOther x).
+  Hypothesis HS : forall l, Forall P l -> P (MSeq l).
+  Fixpoint marg_ind' (a : marg V A X) : P a :=
+    match a with
+    | MView v => HV v
+    | MArr x => HA x
+    | MOther x => HO x
+    | MSeq l => HS l ((fix go (l : list (marg V A X)) : Forall P l :=
+                         match l with [] => Forall_nil P | x :: r => Forall_cons x (marg_ind' x) (go r) end) l)
+    end.
+End MargInd.
+
+Lemma same_class_refl c : same_class c c = true.
+Proof. destruct c; reflexivity. Qed.
+
+Lemma filter_length_le' {T} (p : T -> bool) (l : list T) : (length (filter p l) <= length l)%nat.
+Proof. induction l as [|x l IH]; cbn [filter length]; [lia|]. destruct (p x); cbn [length]; lia. Qed.
+
+Section DispatchProofs.
+  Variables V A X R : Type.
+  Variable cls : V -> vclass.
+  Variable mat : V -> A.
+  Let others (c : vclass) (v : V) : bool := negb (same_class (cls v) c).
+
+  Lemma views_conv_class c (a : marg V A X) :
+    views V A X (conv_class V A X cls mat c a) = filter (others c) (views V A X a).
+  Proof.
+    induction a as [v|x|x|l IH] using marg_ind'; try reflexivity.
+    - cbn [conv_class views filter]. unfold others. destruct (same_class (cls v) c); reflexivity.
+    - cbn [conv_class views]. induction IH as [|y r Hy _ IHr]; [reflexivity|].
+      cbn [map flat_map]. rewrite filter_app, Hy, IHr. reflexivity.
+  Qed.
+
+  Lemma views_of_conv_class c (args : list (marg V A X)) :
+    views_of V A X (map (conv_class V A X cls mat c) args) = filter (others c) (views_of V A X args).
+  Proof.
+    unfold views_of. induction args as [|y r IHr]; [reflexivity|].
+    cbn [map flat_map]. rewrite filter_app, views_conv_class, IHr. reflexivity.
+  Qed.
+
+  Lemma mat_all_conv_class c (a : marg V A X) : mat_all V A X mat (conv_class V A X cls mat c a) = mat_all V A X mat a.
+  Proof.
+    induction a as [v|x|x|l IH] using marg_ind'; try reflexivity.
+    - cbn [conv_class]. destruct (same_class (cls v) c); reflexivity.
+    - cbn [conv_class mat_all]. f_equal. induction IH as [|y r Hy _ IHr]; [reflexivity|].
+      cbn [map]. rewrite Hy, IHr. reflexivity.
+  Qed.
+
+  Lemma mat_all_no_views (a : marg V A X) : views V A X a = [] -> mat_all V A X mat a = a.
+  Proof.
+    induction a as [v|x|x|l IH] using marg_ind'; try reflexivity.
+    - discriminate.
+    - cbn [views mat_all]. intros H. f_equal. induction IH as [|y r Hy _ IHr]; [reflexivity|].
+      cbn [flat_map] in H. apply app_eq_nil in H as [H1 H2]. cbn [map]. rewrite (Hy H1), (IHr H2). reflexivity.
+  Qed.
+
+  Lemma mat_all_args_no_views (args : list (marg V A X)) : views_of V A X args = [] -> map (mat_all V A X mat) args = args.
+  Proof.
+    unfold views_of. induction args as [|y r IHr]; [reflexivity|]. cbn [flat_map map]. intros H.
+    apply app_eq_nil in H as [H1 H2]. rewrite (mat_all_no_views y H1), (IHr H2). reflexivity.
+  Qed.
+
+  (* whatever the number of classes among the views, after at most one round per view numpy's callable receives the
+     expression with EVERY view replaced by np.array(view) *)
+  Lemma dispatch_spec (f : list (marg V A X) -> R) : forall fuel args,
+    (length (views_of V A X args) < fuel)%nat ->
+    dispatch V A X R cls mat fuel f args = Some (f (map (mat_all V A X mat) args)).
+  Proof.
+    induction fuel as [|k IH]; intros args H; [lia|].
+    cbn [dispatch]. destruct (views_of V A X args) as [|v rest] eqn:E.
+    - rewrite (mat_all_args_no_views args E). reflexivity.
+    - cbn [av_function_converts_then_applies av_ufunc_converts_then_applies av_convert_recurses_lists_tuples andb].
+      rewrite IH.
+      + rewrite map_map. f_equal. f_equal. apply map_ext. intros a. apply mat_all_conv_class.
+      + rewrite views_of_conv_class, E. cbn [filter]. unfold others at 1. rewrite same_class_refl. cbn [negb].
+        pose proof (filter_length_le' (others (cls v)) rest) as Hle. cbn [length] in H. lia.
+  Qed.
+
+  Lemma dispatch_all (f : list (marg V A X) -> R) args :
+    dispatch V A X R cls mat (S (length (views_of V A X args))) f args = Some (f (map (mat_all V A X mat) args))
+    /\ views_of V A X (map (mat_all V A X mat) args) = [].
+  Proof.
+    split; [apply dispatch_spec; lia|].
+    unfold views_of. induction args as [|y r IHr]; [reflexivity|]. cbn [map flat_map]. rewrite IHr, app_nil_r.
+    induction y as [v|x|x|l IH] using marg_ind'; try reflexivity.
+    cbn [mat_all views]. induction IH as [|z q Hz _ IHq]; [reflexivity|]. cbn [map flat_map]. rewrite Hz, IHq. reflexivity.
+  Qed.
+End DispatchProofs.
+
+Section ConcatProofs.
+  Variables S O F : Type.
+  Variable ap : S -> O -> Z -> F.
+
+  Lemma arrays_of_MArr (l : list (nd F)) : arrays_of S O F (map MArr l) = Some l.
+  Proof. induction l as [|a l IH]; [reflexivity|]. cbn [map arrays_of]. rewrite IH. reflexivity. Qed.
+
+  Lemma views_map_MView (l : list (sview S O F)) : flat_map (views (sview S O F) (nd F) unit) (map MView l) = l.
+  Proof. induction l as [|a l IH]; [reflexivity|]. cbn [map flat_map views app]. rewrite IH. reflexivity. Qed.
+
+  (* np.concatenate([v1, v2, ...]) on views = np.concatenate([np.array(v1), np.array(v2), ...]) *)
+  Lemma concatenate_views_spec (pieces : list (sview S O F)) :
+    concatenate_views S O F ap pieces = np_concatenate F (map (materialise S O F ap) pieces).
+  Proof.
+    unfold concatenate_views. rewrite dispatch_spec.
+    - cbn [map mat_all]. rewrite map_map. cbn [mat_all].
+      rewrite <- (map_map (materialise S O F ap) MArr), arrays_of_MArr. reflexivity.
+    - unfold views_of. cbn [flat_map views]. rewrite app_nil_r, views_map_MView. lia.
+  Qed.
+
+  Lemma concat_flat_v1 (pieces : list (sview S O F)) : forallb (is_v1 S O F) pieces = true ->
+    np_concat_flat F (map (materialise S O F ap) pieces) = Some (flat_map (piece_values S O F ap) pieces).
+  Proof.
+    induction pieces as [|p r IH]; [reflexivity|]. cbn [forallb]. intros H. apply andb_prop in H as [Hp Hr].
+    destruct p; try discriminate Hp. cbn [map materialise np_concat_flat flat_map piece_values]. rewrite (IH Hr). reflexivity.
+  Qed.
+
+  (* one-element-per-point pieces (x, y, z of any records): position by position the stored integer of piece j scaled with
+     the scale and offset of piece j *)
+  Lemma concat_pieces (pieces : list (sview S O F)) : pieces <> [] -> forallb (is_v1 S O F) pieces = true ->
+    concatenate_views S O F ap pieces = Some (A1 (flat_map (piece_values S O F ap) pieces)).
+  Proof.
+    intros Hne Hall. rewrite concatenate_views_spec. destruct pieces as [|p r]; [contradiction|].
+    pose proof (concat_flat_v1 (p :: r) Hall) as Hf. cbn [forallb] in Hall. apply andb_prop in Hall as [Hp _].
+    destruct p; try discriminate Hp. unfold np_concatenate. cbn [map materialise] in *. rewrite Hf. reflexivity.
+  Qed.
+
+  (* joining the stored integers and scaling them once with the first piece's scaling is that — provided every piece HAS
+     the first piece's scale and offset (equal, not nearly equal) *)
+  Lemma grid_first_same_scaling s o (pieces : list (sview S O F)) :
+    pieces <> [] -> Forall (fun v => exists xs, v = V1 xs s o) pieces ->
+    concat_grid_first S O F ap pieces = concatenate_views S O F ap pieces.
+  Proof.
+    intros Hne Hall.
+    assert (forallb (is_v1 S O F) pieces = true) as Hv.
+    { induction Hall as [|v r [xs ->] _ IH]; [reflexivity|]. cbn [forallb is_v1]. destruct r; [reflexivity|]. apply IH. discriminate. }
+    rewrite (concat_pieces pieces Hne Hv).
+    assert (map (ap s o) (flat_map (grid_of S O F) pieces) = flat_map (piece_values S O F ap) pieces) as E.
+    { clear Hne Hv. induction Hall as [|v r [xs ->] _ IH]; [reflexivity|].
+      cbn [flat_map grid_of piece_values]. rewrite map_app, IH. reflexivity. }
+    destruct pieces as [|p r]; [contradiction|]. inversion Hall as [|? ? [xs Hx] _]; subst p.
+    unfold concat_grid_first. rewrite E. reflexivity.
+  Qed.
+End ConcatProofs.
